@@ -88,7 +88,6 @@ layout_t!(c15_address_ipv4, crate::node::Address, 12, 7, [1, s(), s(), s(), s(),
 layout_t!(c15_address_ipv6, crate::node::Address, 22, 19, [2, s(), s(), s(), s(), s(), s(), s(), s(), s(), s(), s(), s(), s(), s(), s(), s(), s(), s()]);
 layout_t!(c15_address_dns1, crate::node::Address, 12, 5, [3, 1, s(), s(), s()]);
 layout_t!(c15_address_dns2, crate::node::Address, 12, 6, [3, 2, s(), s(), s(), s()]);
-layout_t!(c15_address_unknown, crate::node::Address, 12, 4, [s(), s(), s(), s()]);
 
 macro_rules! layout {
     ($name:ident, $unwind:expr, $n:expr, $bytes:expr) => {
